@@ -200,6 +200,7 @@ func runC18(r *mon.Run, replay string) {
 	timed("pinseq", func() { phasePinSeq(r) })
 	timed("stall", func() { phaseStall(r) })
 	timed("caps", func() { phaseCaps(r) })
+	timed("sharedaddr", func() { phaseSharedAddr(r) })
 	timed("shutdown", func() { phaseShutdown(r) })
 	timed("syncstalls", func() { phaseSyncStalls(r) })
 	timed("syncclose", func() { phaseSyncClose(r) })
@@ -226,6 +227,10 @@ func runC18(r *mon.Run, replay string) {
 	r.Floor("syncclose.closed_with_batch_parked", 4)
 	r.Floor("syncclose.batch_parked_in.AddBlocks", 1)
 	r.Floor("syncclose.batch_parked_in.AddValidatedV2Blocks", 1)
+	r.Floor("sharedaddr.connections_attempted", 60)
+	r.Floor("sharedaddr.connections_sharing_a_present_address", 30)
+	r.Floor("sharedaddr.connections_served", 10)
+	r.Floor("sharedaddr.cases_sharing_honest_address", 2)
 	r.Floor("caps.inbound_attempted", 20)
 	r.Floor("caps.outbound_candidates", 8)
 	r.Floor("shutdown.close_calls", 10)
@@ -301,6 +306,10 @@ func runReplay(r *mon.Run, path string) {
 			var c DropLeakCase
 			json.Unmarshal(h.Case, &c)
 			runDropLeakCase(r, c)
+		case "shared-addr-cap":
+			var c SharedAddrCase
+			json.Unmarshal(h.Case, &c)
+			runSharedAddrCase(r, c)
 		case "pinseq":
 			var c PinSeqCase
 			json.Unmarshal(h.Case, &c)
